@@ -168,6 +168,17 @@ func (r *raftNode) applyOperation(ctx context.Context, op *proto.RaftLog,
 	return newTimeoutFuture(deadline, r.Apply(data, time.Until(deadline))), nil
 }
 
+// refusedByFSM returns the error with which the FSM refused the operation of
+// the given future because its preconditions did not hold any more when it was
+// applied. It returns nil if the operation was applied. It must only be called
+// once the future has completed without an error.
+func refusedByFSM(future raft.ApplyFuture) error {
+	if err, ok := future.Response().(error); ok {
+		return err
+	}
+	return nil
+}
+
 // getCommitIndex returns the latest committed Raft index.
 func (r *raftNode) getCommitIndex() uint64 {
 	idx, err := strconv.ParseUint(r.Stats()["commit_index"], 10, 64)
